@@ -826,7 +826,8 @@ def compiler_attr_facts(_: Any = None) -> dict:
 # 3. threads (C12)
 # ----------------------------------------------------------------------------------------------------------------------
 TRACED_REPO = ("graph_utils.py", "graph_minimizer.py", "ssb_decompiler.py", "explorerscript_reader.py", "macro.py",
-               os.path.join("compiler", "utils.py"), "ssb_compiler.py", "label_jump_to_resolver.py", "source_map.py")
+               os.path.join("compiler", "utils.py"), "ssb_compiler.py", "label_jump_to_resolver.py", "source_map.py",
+               os.path.join("simple_ops", "simple.py"), "switch_start.py", "message_switches_cases.py")
 TRACED_ANTLR = (os.path.join("atn", "ParserATNSimulator.py"), os.path.join("atn", "LexerATNSimulator.py"), os.path.join("dfa", "DFA.py"),
                 os.path.join("dfa", "DFAState.py"), os.path.join("atn", "ATN.py"), os.path.join("error", "ErrorStrategy.py"),
                 "PredictionContext.py", os.path.join("atn", "ATNConfigSet.py"))
@@ -1072,6 +1073,7 @@ def run_threads(arg: dict) -> dict:
     n = len(progs)
     out: dict = {"results": [None] * n, "warm_results": None, "broken": None}
     out.update(out_cold)
+    out["process_before"] = {"cwd": os.getcwd(), "recursion_limit": sys.getrecursionlimit()}
 
     def row_of(call: dict, res: dict) -> dict:
         row: dict = {"digest": digest(res), "summary": {k: res[k] for k in ("error", "site", "msg", "skipped", "stage") if k in res}}
@@ -1098,6 +1100,8 @@ def run_threads(arg: dict) -> dict:
         real_lock = _ORIG["lock"] if rec is not None else gu.cache_lock
         gu.cache_lock = SchedLock(real_lock, sched, tids, gu.cache_lock if rec is not None else None)
         names = tuple(os.sep + x for x in TRACED_REPO) + (tuple(os.sep + x for x in TRACED_ANTLR) if arg.get("antlr") else ())
+        if arg.get("trace_only"):          # yield points in these files only (a scenario that aims at one piece of code)
+            names = tuple(os.sep + x for x in arg["trace_only"])
         known: dict[str, bool] = {}
 
         def local_trace(frame: Any, event: str, a: Any) -> Any:
@@ -1177,6 +1181,7 @@ def run_threads(arg: dict) -> dict:
         sys.setswitchinterval(0.005)
     out["results"] = results
     out["errors"] = errors
+    out["process_after"] = {"cwd": os.getcwd(), "recursion_limit": sys.getrecursionlimit()}
     if rec is not None:
         gc.collect()
         out["events"] = rec.events
